@@ -1,7 +1,12 @@
 package main
 
 import (
+	"encoding/json"
+	"flag"
 	"fmt"
+	"os"
+	"os/exec"
+	"path/filepath"
 	"sort"
 	"strings"
 
@@ -176,6 +181,58 @@ type crashJob struct {
 	target string
 }
 
+var fDieAt = flag.Int("die-at", -1, "internal: kill this process (exit 137) just before persistent effect k of the build")
+var fDieRoot = flag.String("die-root", "", "internal: project directory for -die-at")
+var fDieTarget = flag.String("die-target", "", "internal: target to build for -die-at")
+var fDieVars = flag.String("die-vars", "", "internal: JSON of the source variables for -die-at")
+
+// dieChild is the body of a conformance child process: one build under the scheduler that
+// really dies (os.Exit) at effect k, leaving the directory to be compared with the snapshot.
+func dieChild() {
+	controlled = true
+	var v Vars
+	if err := json.Unmarshal([]byte(*fDieVars), &v); err != nil {
+		vlib.Fatalf("die-vars: %v", err)
+	}
+	buildCtl(*fDieRoot, v, buildOpts{Target: *fDieTarget}, ctlOpts{onEffect: func(idx int, desc string) {
+		if idx == *fDieAt {
+			os.Exit(137)
+		}
+	}})
+	os.Exit(0)
+}
+
+// conformance: for every crash point k of one build, a child process performs the same build
+// and is really killed at k; the directory it leaves must equal the in-process snapshot k
+// (after renaming run identifiers, which are random per execution).
+func (x *searcher) conformance(pre *State, target string) (checked int) {
+	css, _ := x.crashStates(pre, buildOpts{Target: target}, nil, false)
+	vj, _ := json.Marshal(pre.V)
+	root := filepath.Join(x.r.Scratch, "kill", "p")
+	for _, cs := range css {
+		if cs.torn != "" {
+			continue
+		}
+		writeTree(root, pre.files())
+		cmd := exec.Command(os.Args[0], "-prop", "C03", "-die-at", fmt.Sprint(cs.k), "-die-root", root, "-die-target", target, "-die-vars", string(vj))
+		out, err := cmd.CombinedOutput()
+		code := 0
+		if ee, ok := err.(*exec.ExitError); ok {
+			code = ee.ExitCode()
+		}
+		if code != 137 && !(code == 0 && cs.desc == "after the last effect") {
+			vlib.Fatalf("conformance child for effect %d exited with %d: %s", cs.k, code, out)
+		}
+		got := readTree(root)
+		if d := diffTrees(canonArt(artOf(cs.tree)), canonArt(artOf(got))); d != "" {
+			x.r.Violation("C03:simulated-crash-state-differs-from-real-kill", fmt.Sprintf("crash point %d (%s) of build %s: in-process snapshot and directory left by a killed process differ: %s", cs.k, cs.desc, target, d),
+				map[string]any{"history": pre.Hist, "target": target, "k": cs.k, "diff": d})
+		}
+		checked++
+	}
+	return checked
+}
+
 func crashMain(r *vlib.Run, x *searcher) {
 	controlled = true
 	byName := map[string]Op{}
@@ -224,6 +281,9 @@ func crashMain(r *vlib.Run, x *searcher) {
 				vlib.Fatalf("pre-state history %v: op %s not applicable", j.hist, name)
 			}
 			s = ns[0]
+		}
+		if ji == 4 || (r.Thorough() && ji%3 == 1) {
+			r.Add("kill_conformance_points", int64(x.conformance(s, j.target)))
 		}
 		o := buildOpts{Target: j.target}
 		seen := map[string]bool{}
@@ -298,6 +358,7 @@ func crashMain(r *vlib.Run, x *searcher) {
 	r.Assumptions = []string{
 		"crash model = process death: effects that happened persist, nothing else does (power-loss reordering of un-synced data is out of scope, as in the property)",
 		"a body is a successful execution once the record written after it has been renamed into place; a body that started without that is unfinished and must be re-executed",
+		"the in-process crash snapshots are validated against directories left by really killed child processes (coverage.traces_validated_against_impl crash points)",
 		"crash states are the prefixes of each explored linearisation of the persistent effects (quick: the default schedule; thorough: all schedules with <=1 preemption), plus torn prefixes of in-place writes",
 	}
 	r.Finish(vlib.Coverage{
@@ -306,7 +367,7 @@ func crashMain(r *vlib.Run, x *searcher) {
 		Rule:               "for each pre-state history x crashed build target: every crash point between two persistent effects (and torn in-place writes), de-duplicated on (tree bytes, model); from each, breadth-first recovery histories of the stated depth; non-trivial = distinct crash states",
 		States:             r.Get("distinct_crash_states") + r.Get("recovery_states"),
 		Transitions:        r.Get("recovery_transitions") + r.Get("crash_points"),
-		TracesValidated:    r.Get("crash_builds"),
+		TracesValidated:    r.Get("kill_conformance_points"),
 		Exhaustive:         true,
 		Outcomes:           r.NumOutcomes("executed_sets"),
 		Bounds:             map[string]any{"pre_states": len(pres), "crash_targets": 3, "recovery_depth": recDepth, "recovery_ops": len(recOps), "linearisation_preemption_bound": map[bool]int{false: 0, true: 1}[r.Thorough()]},
